@@ -18,10 +18,16 @@
    first GMax requests touching GSet - with blocks that the ledger refuses (garbage), one message at a time in any order.
 
    Named deviations (CONSTANT switches, all refuted by TLC - see MC_*.cfg):
-     NoResetOnDrop       the PINNED behaviour of the tree under test: when the queue runner throws a refused element away,
-                         lastQ stays ahead of it, requestBlocks keeps rewriting the request to lastQ+1.. and the block is
-                         never asked for again (exhibited on the real server: known finding / repair candidate).  The
-                         model's default design lowers lastQ to the chain height when an element is refused.
+     NoResetOnDrop       the behaviour PINNED in the tree before repair 093d8db: when the queue runner throws a refused element
+                         away, lastQ stays ahead of it, requestBlocks keeps rewriting the request to lastQ+1.. and the block is
+                         never asked for again (exhibited on the real server by this extension).  The model's default is the
+                         repaired design: an element the ledger really refused (chain height below its index) pulls lastQ
+                         back to index-1.
+     NoRunnerStart       the behaviour PINNED before the second repair: in P2P state exchange nobody starts the runner of the
+                         queue that handleBlockCmd fills (bSyncQueue.Run was only started by the NeoFS stage callback).  The
+                         model's default is the repaired design: the first block command that finds the module collecting
+                         blocks starts the runner (sync.Once).  LazyRunner = TRUE selects the state-exchange queue (runner not
+                         started by Server.Start), FALSE the ordinary queue.
      BugStartPlus2       off-by-one in the first requested index
      BugNoFallback       a chunk handed to a peer that does not answer is never requested again (branch two keeps its old
                          start instead of falling back to height+1)
@@ -29,12 +35,12 @@
 EXTENDS Integers, FiniteSets, Sequences, TLC
 
 CONSTANTS N, H0, Cap, Chunk, Peers, Kind, Has, Adv, GSet, GMax, MaxPush, InitConn,
-          NoResetOnDrop, BugStartPlus2, BugNoFallback, BugIgnoreBelowReq
+          NoResetOnDrop, BugStartPlus2, BugNoFallback, BugIgnoreBelowReq, LazyRunner, NoRunnerStart
 
 A == INSTANCE NetSync
 
-VARIABLES h, lastReq, lastQ, slot, infl, gleft, conn, pushLeft, ledger, offered
-vars == <<h, lastReq, lastQ, slot, infl, gleft, conn, pushLeft, ledger, offered>>
+VARIABLES h, lastReq, lastQ, slot, infl, gleft, conn, pushLeft, ledger, offered, running
+vars == <<h, lastReq, lastQ, slot, infl, gleft, conn, pushLeft, ledger, offered, running>>
 
 NoBlk == [k |-> 0, bad |-> FALSE]
 Pos(k) == k % Cap
@@ -46,7 +52,7 @@ Min(a, b) == IF a < b THEN a ELSE b
 Init == /\ h = H0 /\ lastReq = 0 /\ lastQ = 0
         /\ slot = [i \in 0..(Cap - 1) |-> NoBlk]
         /\ infl = {} /\ gleft = [p \in Peers |-> GMax]
-        /\ conn = InitConn /\ pushLeft = MaxPush /\ ledger = <<>> /\ offered = {}
+        /\ conn = InitConn /\ pushLeft = MaxPush /\ ledger = <<>> /\ offered = {} /\ running = ~LazyRunner
 
 (* ---------------------------------------------------------------- requests *)
 \* what peer p sends back for the range start..start+count-1 (a set of block messages)
@@ -79,14 +85,14 @@ Tick(p) ==
           /\ IF Adv[p] > lastReq + Chunk
              THEN lastReq' = lastReq + Chunk /\ Send(p, lastReq + Chunk)
              ELSE lastReq' = lastReq /\ Send(p, IF BugNoFallback THEN lastReq ELSE h + 1)
-    /\ UNCHANGED <<h, lastQ, slot, conn, pushLeft, ledger>>
+    /\ UNCHANGED <<h, lastQ, slot, conn, pushLeft, ledger, running>>
 
 TickRnd(p, i) ==                                            \* branch three: a random chunk of the window
     /\ p \in conn /\ Adv[p] > h
     /\ lastReq >= h + (Cap - Chunk) /\ lastReq > h
     /\ i \in 0..((Cap \div Chunk) - 1)
     /\ Send(p, h + 1 + i * Chunk)
-    /\ UNCHANGED <<h, lastReq, lastQ, slot, conn, pushLeft, ledger>>
+    /\ UNCHANGED <<h, lastReq, lastQ, slot, conn, pushLeft, ledger, running>>
 
 (* ---------------------------------------------------------------- queue *)
 \* the lastQ scan of Put: starts at the slot just written and never wraps
@@ -104,27 +110,29 @@ Deliver(m) ==
     /\ m \in infl
     /\ infl' = infl \ {m}
     /\ Put(m)
+    /\ running' = (running \/ ~NoRunnerStart)          \* handleBlockCmd: bSyncQueueRun.Do(go bSyncQueue.Run)
     /\ UNCHANGED <<h, lastReq, gleft, conn, pushLeft, ledger, offered>>
 
 Apply ==
     LET b == slot[Pos(h + 1)] IN
-    /\ b # NoBlk
+    /\ running /\ b # NoBlk
     /\ slot' = [slot EXCEPT ![Pos(h + 1)] = NoBlk]
     /\ IF b.k = h + 1 /\ ~b.bad
        THEN h' = h + 1 /\ ledger' = Append(ledger, b.k) /\ lastQ' = lastQ
        ELSE /\ h' = h /\ ledger' = ledger
-            /\ lastQ' = IF NoResetOnDrop \/ lastQ <= h THEN lastQ ELSE h
-    /\ UNCHANGED <<lastReq, infl, gleft, conn, pushLeft, offered>>
+            \* refused = the ledger said no and is still below the element (a stale element is merely thrown away)
+            /\ lastQ' = IF ~NoResetOnDrop /\ b.k > h /\ lastQ >= b.k THEN b.k - 1 ELSE lastQ
+    /\ UNCHANGED <<lastReq, infl, gleft, conn, pushLeft, offered, running>>
 
 (* ---------------------------------------------------------------- environment *)
 Connect(p) == /\ p \in Peers \ conn /\ conn' = conn \cup {p}
-              /\ UNCHANGED <<h, lastReq, lastQ, slot, infl, gleft, pushLeft, ledger, offered>>
+              /\ UNCHANGED <<h, lastReq, lastQ, slot, infl, gleft, pushLeft, ledger, offered, running>>
 Drop(p)    == /\ p \in conn /\ ~Responsive(p) /\ conn' = conn \ {p}
-              /\ UNCHANGED <<h, lastReq, lastQ, slot, infl, gleft, pushLeft, ledger, offered>>
+              /\ UNCHANGED <<h, lastReq, lastQ, slot, infl, gleft, pushLeft, ledger, offered, running>>
 Push(k, bad) == /\ pushLeft > 0 /\ k \in 1..N /\ pushLeft' = pushLeft - 1
                 /\ infl' = infl \cup {[k |-> k, bad |-> bad]}
                 /\ offered' = IF bad THEN offered ELSE offered \cup {k}
-                /\ UNCHANGED <<h, lastReq, lastQ, slot, gleft, conn, ledger>>
+                /\ UNCHANGED <<h, lastReq, lastQ, slot, gleft, conn, ledger, running>>
 
 Next == \/ \E p \in Peers : Tick(p) \/ Connect(p) \/ Drop(p)
         \/ \E p \in Peers, i \in 0..((Cap \div Chunk) - 1) : TickRnd(p, i)
